@@ -12,6 +12,7 @@ EXTENDS Gap, Json
 CONSTANTS GenLen,     \* history length
           Script,     \* <<>>: free; else the sequence of steps to follow, e.g. <<[a |-> "Issue", c |-> "std"], [a |-> "Pay", i |-> 0], ...>>
           GenWant,    \* "": every history; "miss": only histories in which a restore leaves a funded address behind;
+                      \* "stale": see WantedStale;
                       \* "edge": only histories that end with two funded indexes exactly G apart
           GenRandom   \* TRUE (simulation): one random instance per action kind, so kinds are drawn evenly
 VARIABLE hist
@@ -71,5 +72,12 @@ Wanted == \/ GenWant = ""
 \* "edge": two funded indexes exactly G apart with nothing funded between them - the longest gap the issue
 \* rule permits, i.e. the last index the restore scan must still reach
 WantedEdge == GenWant = "edge" /\ \E i, j \in UsedSet : j - i = G /\ \A k \in UsedSet : ~(i < k /\ k < j)
-Emit == (Len(hist) = GenLen /\ (Wanted \/ WantedEdge)) => PrintT(<<"HIST", ToJson([g |-> G, steps |-> hist])>>)
+\* "stale": a request is refused after a reorganisation took history away, with an address issued while that history
+\* was still there and no restart in between (an answer "used" remembered from before the reorganisation would grant it)
+WantedStale == GenWant = "stale" /\ \E j, k \in 1..Len(hist) :
+                   /\ j < k /\ hist[j].a = "Reorg" /\ hist[k].a = "Issue" /\ ~hist[k].ok
+                   /\ \A m \in (j + 1)..(k - 1) : hist[m].a # "Restart"
+                   /\ \E i \in 1..(j - 1) : hist[i].a = "Issue" /\ hist[i].ok /\ \E p \in 1..(i - 1) : hist[p].a = "Pay" /\ hist[p].i >= 0
+                                              /\ \A m \in (i + 1)..(j - 1) : hist[m].a # "Restart"
+Emit == (Len(hist) = GenLen /\ (Wanted \/ WantedEdge \/ WantedStale)) => PrintT(<<"HIST", ToJson([g |-> G, steps |-> hist])>>)
 =============================================================================
